@@ -31,6 +31,7 @@ import (
 	"github.com/emersion/go-msgauth/dmarc"
 	"github.com/foxcpp/maddy/framework/address"
 	"github.com/foxcpp/maddy/framework/dns"
+	"golang.org/x/net/idna"
 	"golang.org/x/net/publicsuffix"
 )
 
@@ -47,7 +48,7 @@ func FetchRecord(ctx context.Context, r Resolver, fromDomain string) (policyDoma
 	}
 	if len(records) == 0 {
 		// No DMARC records or 'no such host', try orgDomain.
-		orgDomain, err := publicsuffix.EffectiveTLDPlusOne(fromDomain)
+		orgDomain, err := publicsuffix.EffectiveTLDPlusOne(pslForm(fromDomain))
 		if err != nil {
 			return "", nil, err
 		}
@@ -205,10 +206,23 @@ func EvaluateAlignment(fromDomain string, record *Record, results []authres.Resu
 	return res
 }
 
+// pslForm converts the domain into the form used by the Public Suffix List
+// entries: lower-case A-labels. Lookups in the list are case-sensitive.
+func pslForm(domain string) string {
+	normalized, _ := dns.ForLookup(domain)
+	ascii, err := idna.ToASCII(normalized)
+	if err != nil {
+		return normalized
+	}
+	return ascii
+}
+
 func isAligned(fromDomain, authDomain string, mode AlignmentMode) bool {
 	if mode == dmarc.AlignmentStrict {
 		return strings.EqualFold(fromDomain, authDomain)
 	}
+
+	fromDomain, authDomain = pslForm(fromDomain), pslForm(authDomain)
 
 	tld, _ := publicsuffix.PublicSuffix(fromDomain)
 	if strings.EqualFold(fromDomain, tld) {
